@@ -77,6 +77,10 @@ func (u *Unit) execBuiltin(p *Path, x *ssa.Call, b *ssa.Builtin) {
 			for _, ax := range u.enumAxiomsP(mv, ks, idx, nn, false) {
 				p.assume(ax)
 			}
+			// an empty map has no keys (cheap trigger: creates no new terms)
+			u.cx.n++
+			kk := V(fmt.Sprintf("q_k_%d", u.cx.n), ksort)
+			p.assume(Forall([]*Term{kk}, Imp(Eq(n, IntLit(0)), Not(Select(enc.MapDom(mv), kk))), []*Term{Select(enc.MapDom(mv), kk)}))
 			p.vals[x] = n.WithT(x.Type())
 		default:
 			u.fail("len of %s", x.Call.Args[0].Type())
